@@ -75,7 +75,7 @@ var c16Inline = map[string]string{
 	"@xa": "package a\n\nimport (\n\t\"fmt\"\n\n\t\"a.b/x\"\n)\n\nfunc f() {\n\tfmt.Println(x.V, x.K)\n\tx.F()\n}\n",
 	"@xb": "package a\n\nimport \"c.d/x\"\n\nvar v = x.T{F: x.K}\n\nfunc g() x.T { return x.F(v) }\n",
 }
-var c16MapScenarios = []string{"imports-alias-collision", "imports-two-specs-one-alias", "newpackage-import-error", "imports-added-conflict", "imports-aliases-override", "imports-removed", "package-decorate-print", "newpackage", "goast-roundtrip", "extras-bytes", "clone-package"}
+var c16MapScenarios = []string{"imports-alias-collision", "imports-two-specs-one-alias", "newpackage-import-error", "imports-added-conflict", "imports-aliases-override", "imports-removed", "package-decorate-print", "package-decorate-print-multiline", "newpackage", "goast-roundtrip", "extras-bytes", "clone-package"}
 
 func init() {
 	core.Register(&core.Prop{
@@ -385,11 +385,25 @@ func c16MapBody(sc string) func() string {
 			return c16RestoreSrc("import (\n\tq \"fmt\"\n\tq \"io\"\n)\n", 0b00011)
 		case "imports-removed":
 			return c16Restore(c07Case{Used: 0b00001, Shape: 7, OvPath: -1, LocalIs: -1})
-		case "package-decorate-print":
+		case "package-decorate-print", "package-decorate-print-multiline":
 			fset := token.NewFileSet()
 			files := map[string]*ast.File{}
-			for i, name := range []string{"vars", "comments", "funcs"} {
+			srcs := []string{"vars", "comments", "funcs"}
+			if sc == "package-decorate-print-multiline" {
+				// one file whose raw string and block comment span the line numbers on which the other
+				// files have blank lines and one-element-per-line lists
+				srcs = []string{"@multi", "@lines1", "@lines2"}
+			}
+			for i, name := range srcs {
 				t, _ := gen.Find(gen.Templates(), name)
+				switch name {
+				case "@multi":
+					t.Src = "package a\n\nvar s = `l3\nl4\nl5\nl6`\n\n/*\nl9\nl10\nl11\n*/\nvar t = 1\n"
+				case "@lines1":
+					t.Src = "package a\n\nvar u = []int{\n\t1,\n\t2,\n}\n\nvar (\n\tv = 1\n\n\tw = 2\n)\n"
+				case "@lines2":
+					t.Src = "package a\n\nfunc h() {\n\tx()\n\n\ty()\n}\n\nfunc k() {\n\tz(\n\t\t1,\n\t)\n}\n"
+				}
 				af, err := parser.ParseFile(fset, fmt.Sprintf("f%d.go", i), t.Src, parser.ParseComments)
 				if err != nil {
 					panic(err)
